@@ -127,6 +127,77 @@ func share(r *coqfmt.Rng, roots []reflect.Value, num, den int) int {
 
 // ---- stack2 ----
 
+// sliceSlots lists, in field order, the settable slice-typed struct fields below v
+// (through nested structs and non-nil pointers to structs).
+func sliceSlots(v reflect.Value, out *[]reflect.Value) {
+	t := v.Type()
+	for i := 0; i < v.NumField(); i++ {
+		if t.Field(i).PkgPath != "" {
+			continue
+		}
+		f := v.Field(i)
+		switch f.Kind() {
+		case reflect.Slice:
+			if f.CanSet() {
+				*out = append(*out, f)
+			}
+		case reflect.Ptr:
+			if !f.IsNil() && f.Type().Elem().Kind() == reflect.Struct {
+				sliceSlots(f.Elem(), out)
+			}
+		case reflect.Struct:
+			sliceSlots(f, out)
+		}
+	}
+}
+
+// emptyWithCap turns some slice slots into EMPTY, NON-NIL slices with spare capacity:
+// a cleared slice s[:0] (old elements stay behind len) or a pre-sized make([]T, 0, n).
+func emptyWithCap(r *coqfmt.Rng, roots []reflect.Value, num, den int) int {
+	n := 0
+	for _, root := range roots {
+		var slots []reflect.Value
+		sliceSlots(root, &slots)
+		for _, s := range slots {
+			if !r.Chance(num, den) {
+				continue
+			}
+			if !s.IsNil() && s.Len() > 0 && r.Chance(1, 2) {
+				s.Set(s.Slice(0, 0))
+			} else {
+				s.Set(reflect.MakeSlice(s.Type(), 0, 1+r.Intn(3)))
+			}
+			n++
+		}
+	}
+	return n
+}
+
+// scribble appends one element (different from what is behind len) to every slice
+// slot of the config below root that has spare capacity - what a user of the config
+// may do with memory that belongs to the config alone.
+func scribble(r *coqfmt.Rng, root reflect.Value) int {
+	var slots []reflect.Value
+	sliceSlots(root, &slots)
+	n := 0
+	for _, s := range slots {
+		if s.IsNil() || s.Len() >= s.Cap() {
+			continue
+		}
+		hidden := s.Slice(0, s.Cap()).Index(s.Len())
+		tmp := reflect.New(s.Type().Elem()).Elem()
+		for try := 0; try < 8; try++ {
+			rty.GenValue(r, tmp, rty.VOpts{NilNum: 0, NilDen: 1}, 0)
+			if !reflect.DeepEqual(tmp.Interface(), hidden.Interface()) {
+				break
+			}
+		}
+		s.Set(reflect.Append(s, tmp))
+		n++
+	}
+	return n
+}
+
 func composeSafe(defaultsPtr reflect.Value, layers []reflect.Value) (res reflect.Value, err error, panicked bool) {
 	defer func() {
 		if r := recover(); r != nil {
@@ -178,6 +249,7 @@ func runStack2(in input) driver.Result {
 		rty.GenValue(r, lptr[i].Elem(), rty.VOpts{NilNum: r.Intn(4), NilDen: 4}, 0)
 		roots = append(roots, lptr[i].Elem())
 	}
+	emptied := emptyWithCap(r, roots, 1, 3)
 	planted := share(r, roots, 1, 2)
 	layers := make([]reflect.Value, nl)
 	for i := range layers {
@@ -215,6 +287,9 @@ func runStack2(in input) driver.Result {
 	tags := []string{fmt.Sprintf("layers-%d", nl)}
 	if planted > 0 {
 		tags = append(tags, "shared-inputs")
+	}
+	if emptied > 0 {
+		tags = append(tags, "empty-slice-with-cap")
 	}
 	after := []string{graphwalk.Canon(defaults)}
 	for _, l := range lptr {
@@ -259,6 +334,24 @@ func runStack2(in input) driver.Result {
 			direct = append(direct, "two stackings of the same inputs are not deeply equal")
 		}
 		implTerm = "(Ok (" + t1 + ", " + t2 + "))"
+		// a user appends (within capacity) to the slices of the first config: neither the
+		// inputs nor the second config may notice
+		c2 := graphwalk.Canon(res2)
+		if scribble(r, res1.Elem()) > 0 {
+			tags = append(tags, "appended-within-cap")
+			now := []string{graphwalk.Canon(defaults)}
+			for _, l := range lptr {
+				now = append(now, graphwalk.Canon(l))
+			}
+			for i := range now {
+				if now[i] != after[i] {
+					direct = append(direct, fmt.Sprintf("an append (within capacity) to a slice of the config shows up in input %d (0 = defaults)", i))
+				}
+			}
+			if graphwalk.Canon(res2) != c2 {
+				direct = append(direct, "an append (within capacity) to a slice of one config shows up in the other stacking of the same inputs")
+			}
+		}
 	}
 	return driver.Result{
 		Coq: fmt.Sprintf("Stack2 %s %s %d %d %s %s", rty.FieldsTerm(T), coqfmt.List(w.Objs(0)), nIn, did,
@@ -317,12 +410,14 @@ func genHistory(in input) (*HCfg, []reflect.Value, int) {
 	r := coqfmt.NewRng(in.State)
 	cfg := &HCfg{hidden: 7}
 	rty.GenValue(r, reflect.ValueOf(cfg).Elem(), rty.VOpts{NilNum: 1, NilDen: 4}, 0)
+	emptyWithCap(r, []reflect.Value{reflect.ValueOf(cfg).Elem()}, 1, 4)
 	inputs := []reflect.Value{reflect.ValueOf(cfg)} // pointers to every input value
 	pt := ptrify.Pointerify(reflect.TypeOf(HCfg{}), reflect.ValueOf(cfg).Elem())
 	planted := 0
 	for i := 0; i < 2+in.Updates; i++ {
 		p := reflect.New(pt)
 		rty.GenValue(r, p.Elem(), rty.VOpts{NilNum: r.Intn(4), NilDen: 4}, 0)
+		emptyWithCap(r, []reflect.Value{p.Elem()}, 1, 4)
 		roots := []reflect.Value{}
 		for _, q := range inputs {
 			roots = append(roots, q.Elem())
@@ -431,6 +526,29 @@ func runHistory(in input, mutateDefaults bool) (driver.Result, []string) {
 	tags := []string{fmt.Sprintf("updates-%d", in.Updates)}
 	if planted > 0 {
 		tags = append(tags, "shared-inputs")
+	}
+	if !mutateDefaults {
+		// a user appends (within capacity) to the slices of one version after the other:
+		// no input and no other version may notice
+		r2 := coqfmt.NewRng(in.State ^ 0x5c21bb1e)
+		cur := append([]string{}, vcanon...)
+		for i, v := range versions {
+			if scribble(r2, v.Elem()) == 0 {
+				continue
+			}
+			tags = append(tags, "appended-within-cap")
+			cur[i] = graphwalk.Canon(v)
+			for k, q := range inputs {
+				if graphwalk.Canon(q) != snaps[k] {
+					direct = append(direct, fmt.Sprintf("an append (within capacity) to a slice of version %d shows up in input %d (0 = defaults)", i, k))
+				}
+			}
+			for j, u := range versions {
+				if j != i && graphwalk.Canon(u) != cur[j] {
+					direct = append(direct, fmt.Sprintf("an append (within capacity) to a slice of version %d shows up in version %d", i, j))
+				}
+			}
+		}
 	}
 	return driver.Result{
 		Coq:  fmt.Sprintf("History %s %d %s", coqfmt.List(w.Objs(0)), nIn, coqfmt.List(vterms)),
@@ -548,7 +666,7 @@ func main() {
 	driver.Main(driver.Engine{
 		Prop: "C02", CoqImport: "Dials.Check.C02Check", CoqRun: "run_cases",
 		Rule: "stack2: random struct types as for C01, random defaults and 0-3 layers, equal-typed maps / slices (also sub-slices) / pointers " +
-			"aliased at random between the defaults and the layers and between layers, stacked twice through VerifCompose; history: dials.Config over a " +
+			"aliased at random between the defaults and the layers and between layers, some slice fields made empty but non-nil with spare capacity (s[:0], make([]T,0,n)), stacked twice through VerifCompose, then elements appended within capacity to the first result; history: dials.Config over a " +
 			"fixed type with a static and a watching source, 0-4 updates, each new value aliasing slots of the defaults and of values reported earlier; " +
 			"non-trivial: at least one reference is shared between inputs (and >= 1 layer / >= 1 update); distinct = distinct PRNG case states",
 		Gen: gen, Run: run,
